@@ -36,10 +36,12 @@ pub fn items<'tcx>(tcx: TyCtxt<'tcx>) -> J {
         let kind = tcx.def_kind(did);
         let mut o = J::obj();
         o.push(("path", J::s(defpath(tcx, did))));
+        o.push(("dp", J::s(dp(tcx, did))));
         o.push(("kind", J::s(format!("{:?}", kind))));
         o.push(("span", sp(tcx, tcx.def_span(did))));
         o.push(("exp", J::Bool(tcx.def_span(did).from_expansion())));
         if let Some(p) = tcx.opt_local_parent(ldid) {
+            o.push(("parent_dp", J::s(dp(tcx, p.to_def_id()))));
             o.push(("parent", J::s(defpath(tcx, p.to_def_id()))));
             o.push(("parent_kind", J::s(format!("{:?}", tcx.def_kind(p)))));
         }
@@ -281,6 +283,7 @@ pub fn impls<'tcx>(tcx: TyCtxt<'tcx>) -> J {
         }
         let mut o = J::obj();
         o.push(("path", J::s(defpath(tcx, did))));
+        o.push(("dp", J::s(dp(tcx, did))));
         o.push(("span", sp(tcx, tcx.def_span(did))));
         o.push(("exp", J::Bool(tcx.def_span(did).from_expansion())));
         let self_ty = tcx.type_of(did).instantiate_identity().skip_norm_wip();
@@ -303,6 +306,7 @@ pub fn impls<'tcx>(tcx: TyCtxt<'tcx>) -> J {
             its.push(jobj! {
                 "name": J::s(tcx.item_name(it).to_string()),
                 "path": J::s(defpath(tcx, it)),
+                "dp": J::s(dp(tcx, it)),
                 "kind": J::s(format!("{:?}", tcx.def_kind(it))),
             });
         }
